@@ -285,11 +285,19 @@ class Run:
         disagreements = []
         model = {}
         if drv_ok:
-            rc_m, out_m = run_model(mod.SUB, cases_path)
+            model_cases = cases_path
+            if hasattr(mod, "model_input"):
+                # the model consumes (part of) the implementation's trace: edits as observed
+                model_cases = os.path.join(wd, "model_cases.txt")
+                with open(model_cases, "w") as f:
+                    f.write("\n".join(mod.model_input(cases, impl)) + "\n")
+            rc_m, out_m = run_model(mod.SUB, model_cases)
             with open(os.path.join(wd, "model.txt"), "w") as f: f.write(out_m)
             model = group_by_case(out_m)
             for cid in case_by_id:
                 a, b = model.get(cid, []), [x for x in impl.get(cid, []) if not x.startswith("!")]
+                if hasattr(mod, "impl_projection"):
+                    b = mod.impl_projection(impl.get(cid, []))
                 if a == ["unmodelled"]:
                     self.unmodelled = getattr(self, "unmodelled", 0) + 1
                     continue
